@@ -230,6 +230,7 @@ func nextSession() string {
 
 func writeAtomic(root, rel string, content []byte, tmpdir string) {
 	full := filepath.Join(root, filepath.FromSlash(rel))
+	os.MkdirAll(filepath.Dir(full), 0o755)
 	tmp, err := os.CreateTemp(tmpdir, "w")
 	if err != nil {
 		panic(err)
@@ -437,6 +438,42 @@ func runCase(c Case) (res result) {
 				tags = append(tags, "trans:nochange")
 				rec.end("HTrans []", fmt.Sprintf("XT %d false", t))
 			}
+		case "rmdir":
+			// Removal of a directory that gained a file the plan does not know
+			// of (placed after the scan): the known contents go, the directory
+			// stays. Followed at once by the Scan a controller would make.
+			if !doScan(false) {
+				break
+			}
+			oldDir := lepx.At(lastSnap, o.Path)
+			if oldDir == nil || oldDir.Kind != core.EntryKind_Directory || len(oldDir.Contents) == 0 {
+				continue
+			}
+			rec.begin()
+			writeAtomic(root, o.Path+"/"+o.Content, []byte("not in the plan"), tmpdir)
+			te := rec.now()
+			ide := idOf(diskKey(root))
+			if ide != cur {
+				cur = ide
+				rec.end(fmt.Sprintf("HEdit %d", ide), fmt.Sprintf("XD %d %d true", te, ide))
+			} else {
+				rec.end("")
+			}
+			rec.begin()
+			if _, _, _, err := ep.Transition(bg, []*core.Change{{Path: o.Path, Old: oldDir}}); err != nil {
+				panic("Transition: " + err.Error())
+			}
+			tr := rec.now()
+			idr := idOf(diskKey(root))
+			if idr != cur {
+				cur = idr
+				lastUndo = nil
+				tags = append(tags, "rmdir:partial")
+				rec.end(fmt.Sprintf("HTrans [%d]", idr), fmt.Sprintf("XD %d %d false", tr, idr), fmt.Sprintf("XT %d true", tr))
+			} else {
+				rec.end("HTrans []", fmt.Sprintf("XT %d false", tr))
+			}
+			doScan(false)
 		case "bulk":
 			// A transition that takes a while (a directory with many files),
 			// started just before the polling loop's next tick so that a poll
@@ -586,6 +623,13 @@ func genCase(r interface{ Intn(int) int }) Case {
 			c.Init[n] = fmt.Sprintf("init %s", n)
 		}
 	}
+	hasDir := r.Intn(3) == 0
+	if hasDir {
+		c.Init["dd/x"] = "in a directory"
+		if r.Intn(2) == 0 {
+			c.Init["dd/y"] = "also there"
+		}
+	}
 	c.Ops = append(c.Ops, Op{K: "sleep", Ms: 350 + r.Intn(500)})
 	n := 3 + r.Intn(5)
 	uniq := 0
@@ -618,6 +662,11 @@ func genCase(r interface{ Intn(int) int }) Case {
 			}
 		case 7:
 			c.Ops = append(c.Ops, Op{K: "revert"})
+		case 9:
+			if hasDir {
+				uniq++
+				c.Ops = append(c.Ops, Op{K: "rmdir", Path: "dd", Content: fmt.Sprintf("extra%d", uniq)})
+			}
 		case 8:
 			if !bulked && r.Intn(2) == 0 {
 				bulked = true
